@@ -322,10 +322,14 @@ def _get_dict(data):
             return json.loads(data)
         except TypeError:
             pass
+        except RecursionError:
+            raise ValueError("Cannot convert to dictionary: JSON text is nested too deeply.")
         try:
             return json.load(data)
         except AttributeError:
             pass
+        except RecursionError:
+            raise ValueError("Cannot convert to dictionary: JSON text is nested too deeply.")
         try:
             return dict(data)
         except (ValueError, TypeError):
